@@ -4,6 +4,7 @@ package c01
 import (
 	"errors"
 	"fmt"
+	"os"
 	"sort"
 	"strings"
 	"testing"
@@ -37,6 +38,17 @@ func genCase(t *rapid.T) qcase.Case {
 // string predicate on a missing property is true.
 var refOptions = refcypher.Options{NegatedStringPredicate: refcypher.NegatedStringPredicateCoalesceLookups}
 
+const checkName = "gen"
+
+// findingOpen: exclusions are switched on by the open entries of known_findings (VERIF_TRIAGE_EXCLUDE=all
+// switches all of them on for the triage aid only).
+func findingOpen(slug string) bool {
+	if v := os.Getenv("VERIF_TRIAGE_EXCLUDE"); v != "" && os.Getenv("VERIF_TRIAGE") != "" {
+		return v == "all" || strings.Contains(","+v+",", ","+slug+",")
+	}
+	return evid.R.KnownOpen("C01-" + slug)
+}
+
 func genOptions() cy.Options {
 	o := cy.DefaultOptions()
 	return o
@@ -47,6 +59,12 @@ func oracle(c qcase.Case) (evid.Info, error) {
 	model, err := xlate.Parse(c.Query)
 	if err != nil {
 		info.Skip = "parse-rejected"
+		return info, nil
+	}
+	if slug := qcase.ExcludedBy(c, model, findingOpen); slug != "" {
+		// a listed, still open defect: the shape is not evaluated, it is counted
+		info.Skip = "excluded:C01-" + slug
+		evid.R.Excluded(checkName)
 		return info, nil
 	}
 	mapper := xlate.FixedMapper(c.AllKinds()...)
@@ -128,5 +146,5 @@ func featureClasses(c qcase.Case) []string {
 }
 
 func TestC01Generated(t *testing.T) {
-	evid.Prop(t, "gen", evid.R.N(1500, 20000), genCase, oracle)
+	evid.Prop(t, checkName, evid.R.N(1500, 20000), genCase, oracle)
 }
